@@ -15,6 +15,7 @@ import traceback
 from collections import Counter
 
 VERIF = os.path.dirname(os.path.dirname(os.path.abspath(__file__)))
+OUT = os.environ.get("VERIF_OUT", VERIF)   # dev only (mutant runner); registered commands never set it
 
 
 def _bootstrap():
@@ -198,13 +199,13 @@ def main():
         pu["distinct_nontrivial"] = len(pu.pop("_h"))
 
     # ---------------- report failures -----------------------------------
-    rdir = os.path.join(VERIF, "replays", pid)
+    rdir = os.path.join(OUT, "replays", pid)
     for (uname, key), f in sorted(failures.items()):
         os.makedirs(rdir, exist_ok=True)
         rec = {"property": pid, "unit": uname, "key": key, "msg": f["msg"], "case": f["case"], "info": f.get("info", {})}
         h = canon.case_hash(rec)
         rel = os.path.join("replays", pid, h + ".json")
-        with open(os.path.join(VERIF, rel), "w") as fh:
+        with open(os.path.join(OUT, rel), "w") as fh:
             json.dump(rec, fh, indent=1, sort_keys=True)
         violations.append((key, f["msg"], rel))
 
@@ -257,8 +258,8 @@ def main():
         "violations": len(violations),
     }
     if not args.units:
-        os.makedirs(os.path.join(VERIF, "evidence"), exist_ok=True)
-        with open(os.path.join(VERIF, "evidence", pid + ".json"), "w") as fh:
+        os.makedirs(os.path.join(OUT, "evidence"), exist_ok=True)
+        with open(os.path.join(OUT, "evidence", pid + ".json"), "w") as fh:
             json.dump(ev, fh, indent=1, sort_keys=True)
 
     print("%s tier=%s seed=%d evaluations=%d distinct_nontrivial=%d calls=%d timeouts=%d known_hits=%d violations=%d wall=%.1fs"
